@@ -1,6 +1,9 @@
 package main
 
 import (
+	"regexp"
+	"strconv"
+	"sort"
 	"fmt"
 	"math/rand"
 
@@ -145,6 +148,24 @@ func streamEq(o *Out, r *rand.Rand, n int, thorough bool) {
 			if bv, ok := b.(string); ok && eq != (av == bv) {
 				o.Fail(Failure{Oracle: "go-eq", Key: "string-eq", Input: desc, Detail: fmt.Sprintf("Go == is %v, script == is %v", av == bv, eq)})
 			}
+			// a string equals a number exactly when it is a decimal numeral denoting that number
+			if bi, ok := b.(int64); ok {
+				want := false
+				if decIntRe.MatchString(av) {
+					if n, err := strconv.ParseInt(av, 10, 64); err == nil {
+						want = n == bi
+					} else if f, err := strconv.ParseFloat(av, 64); err == nil {
+						want = f == float64(bi)
+					}
+				} else if decFloatRe.MatchString(av) {
+					if f, err := strconv.ParseFloat(av, 64); err == nil {
+						want = f == float64(bi)
+					}
+				}
+				if eq != want {
+					o.Fail(Failure{Oracle: "string-number-eq", Key: "string-int-eq", Input: desc, Detail: fmt.Sprintf("%q as a decimal numeral denotes %d: %v, but == is %v", av, bi, want, eq)})
+				}
+			}
 		case bool:
 			if bv, ok := b.(bool); ok && eq != (av == bv) {
 				o.Fail(Failure{Oracle: "go-eq", Key: "bool-eq", Input: desc, Detail: fmt.Sprintf("Go == is %v, script == is %v", av == bv, eq)})
@@ -155,7 +176,47 @@ func streamEq(o *Out, r *rand.Rand, n int, thorough bool) {
 			}
 		}
 	}
+	// membership in TYPED lists (host-supplied or made by the script) is the same relation: item in T  <=>  some T[i] == item
+	typedLists := map[string]interface{}{
+		"ti": []int64{0, 1, 2, 10, 65}, "ts": []string{"A", "1", "10", "", "true", "010"}, "tf": []float64{0, 1.5, 3, 10}, "tb": []bool{true}, "tb0": []bool{false},
+		"ti32": []int32{1, 65}, "tu8": []byte{1, 65}, "te": []int64{},
+	}
+	items := []interface{}{nil, true, false, int64(0), int64(1), int64(2), int64(10), int64(65), int64(3), 1.5, 1.0, 3.0, 0.0, 10.0, "1", "10", "A", "", "3", "1.5", "true", "010", "x",
+		[]interface{}{int64(1)}, map[interface{}]interface{}{}}
+	names := make([]string, 0, len(typedLists))
+	for k := range typedLists {
+		names = append(names, k)
+	}
+	sort.Strings(names)
+	for _, ln := range names {
+		for _, it := range items {
+			vars := map[string]interface{}{"item": it, ln: typedLists[ln]}
+			out := runScript("item in "+ln, vars, nil)
+			disj := runScript("r = false\nfor e in "+ln+" {\nif item == e {\nr = true\n}\n}\nr", vars, nil)
+			made := runScript("m = make([]"+map[string]string{"ti": "int64", "ts": "string", "tf": "float64", "tb": "bool", "tb0": "bool", "ti32": "int32", "tu8": "byte", "te": "int64"}[ln]+", 0)\nm += "+ln+"\nitem in m", vars, nil)
+			o.Sum.Evaluations++
+			o.Sum.Hist["in-typed:"+ln]++
+			desc := fmt.Sprintf("item = %T(%v), %s = %T%v", it, it, ln, typedLists[ln], typedLists[ln])
+			if out.panicked || disj.panicked || made.panicked {
+				o.Fail(Failure{Oracle: "no-panic", Key: "panic:in-typed", Input: desc, Detail: fmt.Sprint(out.panicVal, disj.panicVal, made.panicVal)})
+				continue
+			}
+			a, ok1 := asBool(out)
+			b, ok2 := asBool(disj)
+			c, ok3 := asBool(made)
+			if !ok1 || !ok2 || !ok3 {
+				o.Fail(Failure{Oracle: "eq-total", Key: "in-typed-not-bool", Input: desc, Detail: fmt.Sprintf("in: %v, loop with ==: %v, in (script-made list): %v", out.answer(vals.Encode), disj.answer(vals.Encode), made.answer(vals.Encode))})
+				continue
+			}
+			if a != b || c != b {
+				o.Fail(Failure{Oracle: "in-uses-eq", Key: "in-typed-differs:" + ln, Input: desc, Detail: fmt.Sprintf("`item in %s` is %v (script-made list: %v) but some element == item is %v", ln, a, c, b)})
+			}
+		}
+	}
 }
+
+var decIntRe = regexp.MustCompile(`^[+-]?[0-9]+$`)
+var decFloatRe = regexp.MustCompile(`^[+-]?([0-9]+\.?[0-9]*|\.[0-9]+)([eE][+-]?[0-9]+)?$`)
 
 func unwrapEnc(e string) string {
 	if len(e) > 3 && e[:3] == "(w " {
